@@ -105,7 +105,8 @@ pub enum CfgSection {
         min_stake: u128,
         oracle: bool,
         channel: u64,
-        /// spelling of the channel id: 0/1 canonical, 2 leading zeros, 3 explicit plus sign (all accepted by validation)
+        /// spelling of the channel id (value mod 4): 0/1 canonical, 2 leading zeros, 3 explicit plus sign (all accepted
+        /// by validation); values 4..7 additionally write the oracle address in upper case
         #[serde(default)]
         spell: u8,
     },
@@ -197,6 +198,10 @@ pub enum Op {
     MigrateMid { synthetic_replies: u8 },
     HostileReply { id_sel: u8, ok: bool, data: u8 },
     HostileExec { who: Who, kind: u8 },
+    /// LiquidStake (or LiquidUnstake) whose funds carry a second coin besides the expected one: extra_kind 0 =
+    /// the other token of the protocol (LST on a stake, staked asset on an unstake), 1 = an unrelated denom.
+    /// Must be refused: a coin the handler does not account for would stay in the contract, owned by nobody.
+    ExtraFunds { user: u8, unstake: bool, #[serde(with = "ustr")] amount: u128, extra_kind: u8, #[serde(with = "ustr")] extra: u128 },
     /// unsolicited deposit (F22): somebody bank-sends tokens to the staking contract without calling it.
     /// kind 0 = staked asset, 1 = liquid staking token (from the user's holdings), 2 = an unrelated denom
     Donate { user: u8, kind: u8, #[serde(with = "ustr")] amount: u128 },
@@ -228,6 +233,9 @@ pub enum Profile {
     Upgrade,
     /// one account, tiny unstakes, a submission per batch period: many batches and many open requests
     ManyBatches,
+    /// a failing channel: most transfers are refused by the destination, so refunded transfers pile up (more
+    /// than one page of them for one receiver) before anybody recovers them
+    Backlog,
 }
 
 #[derive(Serialize, Deserialize, Clone, Debug, PartialEq)]
